@@ -266,6 +266,39 @@ func remoteSchedule(res *Result, bin, base, name, prop string, seed int64) *sche
 					rid, daemon.Num(ms, "State"), daemon.Num(ms, "StdoutSize"), stdoutLen(p.s, id), len(expected))
 			}
 		}
+	case "restart-submitter-during-monitoring":
+		// S dies while both monitors are at work and part of the output is already local; after the restart the stdout
+		// monitor must continue from the local size (RestartS, OMConnect, OMCopy) and the mirror must complete
+		for t0 := time.Now(); stdoutLen(p.s, id) == 0 && time.Since(t0) < 30*time.Second; {
+			time.Sleep(100 * time.Millisecond)
+		}
+		step("local stdout has %d bytes", stdoutLen(p.s, id))
+		p.killS()
+		step("S killed")
+		time.Sleep(1500 * time.Millisecond)
+		if err := p.restartS(); err != nil {
+			inconc("restart S: %v", err)
+
+			return sr
+		}
+		step("S restarted")
+		if !routeBack() {
+			inconc("route did not come back")
+
+			return sr
+		}
+		if _, _, ok := statusUntil(p.e, rid, 120*time.Second, eFinal); !ok {
+			inconc("E's unit did not finish")
+
+			return sr
+		}
+		ms, _, ok := statusUntil(p.s, id, 60*time.Second, func(m map[string]any, _ string) bool {
+			return m != nil && daemon.Num(m, "State") == 2 && stdoutLen(p.s, id) >= int64(len(expected))
+		})
+		if !ok {
+			viol("remote-mirror-stalls", "60 s after E's unit %s finished the restarted S reports State %d StdoutSize %d and has %d of %d output bytes",
+				rid, daemon.Num(ms, "State"), daemon.Num(ms, "StdoutSize"), stdoutLen(p.s, id), len(expected))
+		}
 	case "cancel-while-disconnected", "cancel-then-restart-submitter":
 		p.cut()
 		step("link cut")
@@ -458,7 +491,7 @@ func stdoutLen(d *daemon.Daemon, id string) int64 {
 	return fi.Size()
 }
 
-var remoteScheduleNames = []string{"cut-during-monitoring", "cancel-while-disconnected", "cancel-then-restart-submitter", "release-while-disconnected", "release-with-executor-gone"}
+var remoteScheduleNames = []string{"cut-during-monitoring", "restart-submitter-during-monitoring", "cancel-while-disconnected", "cancel-then-restart-submitter", "release-while-disconnected", "release-with-executor-gone"}
 
 // remoteSchedules runs the named schedules in parallel and returns their descriptions and trace files.
 func remoteSchedules(res *Result, bin, base, prop string, names []string, seed int64) []*schedResult {
